@@ -140,25 +140,16 @@ impl RaftDataHandler {
     pub async fn load_log(
         &self,
         req: ClientRequest,
-        index_manager: &Addr<RaftIndexManager>,
+        _index_manager: &Addr<RaftIndexManager>,
     ) -> anyhow::Result<()> {
         match req {
-            ClientRequest::NodeAddr { id, addr } => {
-                index_manager
-                    .send(RaftIndexRequest::AddNodeAddr(id, addr))
-                    .await
-                    .ok();
-            }
-            ClientRequest::Members(member) => {
-                index_manager
-                    .send(RaftIndexRequest::SaveMember {
-                        member: member.clone(),
-                        member_after_consensus: None,
-                        node_addr: None,
-                    })
-                    .await
-                    .ok();
-            }
+            // The membership and the node addresses live in the index file, not in the actors that
+            // the replay restores. When an entry was applied its SaveMember / AddNodeAddr was written
+            // before the last_applied_log that makes the replay reach it, so the file already holds
+            // the result of every replayed entry (and of a later snapshot install). Saving the old
+            // values again would take the file, and what raft reads from it, back through the
+            // whole history ([1], [1,2], ...) until the replay has reached the last entry.
+            ClientRequest::NodeAddr { .. } | ClientRequest::Members(_) => {}
             ClientRequest::SequenceReq { req } => {
                 self.sequence_db.send(req).await.ok();
             }
